@@ -184,7 +184,7 @@ def run_dsop(w, s):
             break
         expected[k] = g[1]
     got = _guard(real)
-    if V.snap_dataset(ds) != before:
+    if V.snap_dataset(ds) != before and "C15" in w.props:
         raise Violation("C15", "operand_changed", "Dataset.%s changed the dataset it was called on: %s" % (
             what, V.describe_snap_diff(before, V.snap_dataset(ds))))
     if var_raised is not None:
